@@ -526,3 +526,939 @@ def manager_facts():
         core.cbool(f['order_ok'] and f['tensorlib_test_ok'] and f['optimizer_test_ok'] and f['swap_ok'] and f['registered']),
         core.cbool(f['call_loop_then_flush'] and f['append_at_end'] and f['weak_self'])))
     return dict(facts=f, coq=coq)
+
+
+# =========================================================================================
+# instrumentation (harness side only: wraps pyhf.events.trigger / subscribe and the classes' _precompute)
+BACKENDS = ['numpy', 'jax', 'pytorch', 'tensorflow']
+PRECS = ['64b', '32b']
+OPTS = ['scipy', 'minuit']
+COQ_B = dict(numpy='Numpy', jax='Jax', pytorch='Pytorch', tensorflow='Tensorflow')
+COQ_P = {'64b': 'B64', '32b': 'B32'}
+COQ_O = dict(scipy='Scipy', minuit='Minuit')
+
+
+class Tracker:
+    """process-wide observation of the events machinery"""
+    inst = None
+
+    def __init__(self, table):
+        import importlib
+        import pyhf
+        from pyhf import events
+        self.pyhf, self.events = pyhf, events
+        self.table = {c['name']: c for c in table}
+        self.log = []               # ('trigger', name) | ('pre', serial) | ('sub', serial, cls, event)
+        self.serials = {}           # id(obj) -> (serial, weakref)
+        self.objs = {}              # serial -> weakref
+        self.next_serial = 0
+        self.roots = []             # live trees, in subscription order: dict(root=serial, stamp=None, members=[serials], tree=...)
+        self.classes = {}
+        for c in table:
+            mod = importlib.import_module('pyhf.' + c['file'][:-3].replace('/', '.'))
+            k = getattr(mod, c['name'])
+            self.classes[c['name']] = k
+            if c['has_precompute']:
+                self._wrap_pre(k)
+        self._orig_trigger, self._orig_subscribe = events.trigger, events.subscribe
+        tr = self
+
+        def trigger(event):
+            tr.log.append(('trigger', event))
+            return tr._orig_trigger(event)
+
+        def subscribe(event):
+            deco = tr._orig_subscribe(event)
+
+            def d(func):
+                o = getattr(func, '__self__', None)
+                tr.log.append(('sub', tr.serial(o) if o is not None else -1, type(o).__name__ if o is not None else '<function>', event))
+                return deco(func)
+            return d
+        events.trigger, events.subscribe = trigger, subscribe
+        # import every backend once, then park everything allocated so far in the permanent generation:
+        # gc.collect() after a deletion then only walks what the histories allocate (0.4 s -> a few ms per call)
+        import logging
+        logging.getLogger('pyhf').setLevel(logging.CRITICAL)
+        for b in BACKENDS:
+            pyhf.set_backend(b)
+        pyhf.set_backend('numpy')
+        self.log = []
+        gc.collect()
+        gc.freeze()
+
+    def _wrap_pre(self, k):
+        orig = k._precompute
+        tr = self
+
+        def _precompute(self_, *a, **kw):
+            tr.log.append(('pre', tr.serial(self_)))
+            return orig(self_, *a, **kw)
+        _precompute.__wrapped__ = orig
+        k._precompute = _precompute
+
+    def serial(self, o):
+        e = self.serials.get(id(o))
+        if e is not None and e[1]() is o:
+            return e[0]
+        s = self.next_serial
+        self.next_serial += 1
+        w = weakref.ref(o)
+        self.serials[id(o)] = (s, w)
+        self.objs[s] = w
+        return s
+
+    def alive(self, serial):
+        w = self.objs.get(serial)
+        return w is not None and w() is not None
+
+    def registry(self):
+        return vars(self.events)['__events'].get(EVENT)
+
+    def raw_len(self):
+        r = self.registry()
+        return len(r._callbacks) if r is not None else 0
+
+    def take(self):
+        l, self.log = self.log, []
+        return l
+
+    @classmethod
+    def get(cls, table):
+        if cls.inst is None:
+            cls.inst = Tracker(table)
+        return cls.inst
+
+
+SHAPES = {}
+
+
+def shape_id(t):
+    t = tuple(int(x) for x in t)
+    return SHAPES.setdefault(t, len(SHAPES) + 1)
+
+
+def obj_tree(tr, o, mattr=''):
+    """(cls, mattr, active, shape, kids, serial) following the member attributes named by the fact table"""
+    c = tr.table[type(o).__name__]
+    active = True
+    for g in c['pre_guards']:
+        if eval(g, {}, {'self': o}):
+            active = False
+    sh = shape_id(o.alphasets_shape) if c['shape_refreshed'] or hasattr(o, 'alphasets_shape') else 0
+    kids = []
+    for a, k in c['members']:
+        m = getattr(o, a, None)
+        if m is not None and type(m).__name__ in tr.table:
+            kids.append(obj_tree(tr, m, a))
+    return dict(cls=c['name'], mattr=mattr, active=active, shape=sh, kids=kids, serial=tr.serial(o))
+
+
+def tree_serials(t):
+    out = [t['serial']]
+    for k in t['kids']:
+        out += tree_serials(k)
+    return out
+
+
+def coq_tree(t):
+    return '(T %s %s %s true %d [%s])' % (core.cstr(t['cls']), core.cstr(t['mattr']), core.cbool(t['active']), t['shape'],
+                                         '; '.join(coq_tree(k) for k in t['kids']))
+
+
+# =========================================================================================
+# things the histories create
+SPECS = {
+    'uncorr': {'channels': [{'name': 'c', 'samples': [
+        {'name': 'sig', 'data': [5.0, 6.0], 'modifiers': [{'name': 'mu', 'type': 'normfactor', 'data': None}]},
+        {'name': 'bkg', 'data': [50.0, 60.0], 'modifiers': [{'name': 'unc', 'type': 'shapesys', 'data': [7.0, 8.0]}]}]}]},
+    'corr': {'channels': [{'name': 'c', 'samples': [
+        {'name': 'sig', 'data': [5.0, 6.0], 'modifiers': [{'name': 'mu', 'type': 'normfactor', 'data': None}]},
+        {'name': 'bkg', 'data': [50.0, 60.0], 'modifiers': [
+            {'name': 'h', 'type': 'histosys', 'data': {'lo_data': [45.0, 57.0], 'hi_data': [56.0, 62.0]}},
+            {'name': 'n', 'type': 'normsys', 'data': {'lo': 0.9, 'hi': 1.15}}]}]}]},
+    'all': {'channels': [
+        {'name': 'a', 'samples': [
+            {'name': 'sig', 'data': [3.0, 4.0, 5.0], 'modifiers': [{'name': 'mu', 'type': 'normfactor', 'data': None},
+                                                                   {'name': 'lumi', 'type': 'lumi', 'data': None},
+                                                                   {'name': 'ns', 'type': 'normsys', 'data': {'lo': 0.8, 'hi': 1.1}}]},
+            {'name': 'bkg', 'data': [30.0, 40.0, 50.0], 'modifiers': [
+                {'name': 'hs', 'type': 'histosys', 'data': {'lo_data': [28.0, 37.0, 49.0], 'hi_data': [33.0, 44.0, 52.0]}},
+                {'name': 'st', 'type': 'staterror', 'data': [3.0, 4.0, 0.0]},
+                {'name': 'sf', 'type': 'shapefactor', 'data': None}]}]},
+        {'name': 'b', 'samples': [
+            {'name': 'sig', 'data': [2.0, 1.0], 'modifiers': [{'name': 'mu', 'type': 'normfactor', 'data': None},
+                                                              {'name': 'ns', 'type': 'normsys', 'data': {'lo': 0.9, 'hi': 1.2}}]},
+            {'name': 'bkg', 'data': [20.0, 10.0], 'modifiers': [
+                {'name': 'ss', 'type': 'shapesys', 'data': [2.0, 0.0]},
+                {'name': 'hs', 'type': 'histosys', 'data': {'lo_data': [19.0, 9.0], 'hi_data': [22.0, 11.5]}}]}]}],
+        'parameters': [{'name': 'lumi', 'auxdata': [1.0], 'bounds': [[0.5, 1.5]], 'inits': [1.0], 'sigmas': [0.1]}]},
+    'normonly': {'channels': [{'name': 'c', 'samples': [
+        {'name': 's1', 'data': [10.0], 'modifiers': [{'name': 'mu', 'type': 'normfactor', 'data': None},
+                                                     {'name': 'n1', 'type': 'normsys', 'data': {'lo': 0.7, 'hi': 1.3}}]},
+        {'name': 's2', 'data': [20.0], 'modifiers': [{'name': 'n1', 'type': 'normsys', 'data': {'lo': 0.95, 'hi': 1.05}},
+                                                     {'name': 'n2', 'type': 'normsys', 'data': {'lo': 0.9, 'hi': 1.1}}]}]}]},
+}
+INTERP_CODES = {'code0': 0, 'code1': 1, 'code2': 2, 'code4': 4, 'code4p': '4p'}
+
+
+def gen_handle(rng, kind=None):
+    kind = kind or rng.choice(['model', 'model', 'model', 'interp', 'interp', 'tv', 'pv'])
+    if kind == 'model':
+        name = rng.choice(sorted(SPECS))
+        h = dict(kind='model', spec=name, batch=rng.choice([None, None, 2]),
+                 normsys=rng.choice(['code1', 'code4']), histosys=rng.choice(['code0', 'code2', 'code4p']),
+                 shift=[round(rng.uniform(-0.3, 0.3), 3) for _ in range(24)])
+        return h
+    if kind == 'interp':
+        code = rng.choice(sorted(INTERP_CODES))
+        ns, nh, nb = rng.choice([1, 2]), rng.choice([1, 2]), rng.choice([1, 2])
+        hs = []
+        for _ in range(ns):
+            hs.append([])
+            for _ in range(nh):
+                nom = [round(rng.uniform(5, 20), 2) for _ in range(nb)]
+                lo = [round(x * rng.uniform(0.7, 0.98), 3) for x in nom]
+                hi = [round(x * rng.uniform(1.02, 1.4), 3) for x in nom]
+                hs[-1].append([lo, nom, hi])
+        return dict(kind='interp', code=code, hists=hs)
+    if kind == 'tv':
+        n = rng.choice([3, 5, 6])
+        perm = list(range(n))
+        rng.shuffle(perm)
+        cut = rng.randrange(1, n)
+        return dict(kind='tv', parts=[perm[:cut], perm[cut:]], names=['p', 'q'])
+    if kind == 'pv':
+        sizes = [rng.choice([1, 2, 3]) for _ in range(3)]
+        names = ['a', 'b', 'c']
+        sel = rng.sample(names, rng.choice([0, 1, 2, 3]))
+        return dict(kind='pv', sizes=sizes, names=names, sel=sel, batch=rng.choice([None, 2]))
+    raise ValueError(kind)
+
+
+def build(h):
+    import pyhf
+    if h['kind'] == 'model':
+        spec = copy.deepcopy(SPECS[h['spec']])
+        return pyhf.Model(spec, batch_size=h['batch'], poi_name='mu',
+                          modifier_settings={'normsys': {'interpcode': h['normsys']}, 'histosys': {'interpcode': h['histosys']}})
+    if h['kind'] == 'interp':
+        return getattr(pyhf.interpolators, h['code'])(h['hists'])
+    if h['kind'] == 'tv':
+        from pyhf.tensor.common import _TensorViewer
+        return _TensorViewer([list(p) for p in h['parts']], names=list(h['names']))
+    if h['kind'] == 'pv':
+        from pyhf.parameters import ParamViewer
+        par_map, start = {}, 0
+        for n, s in zip(h['names'], h['sizes']):
+            par_map[n] = {'slice': slice(start, start + s)}
+            start += s
+        shape = (h['batch'], start) if h['batch'] else (start,)
+        return ParamViewer(shape, par_map, list(h['sel']))
+    raise ValueError(h['kind'])
+
+
+def model_inputs(h, m):
+    init = m.config.suggested_init()
+    bounds = m.config.suggested_bounds()
+    pars = []
+    for i, (x, (lo, hi)) in enumerate(zip(init, bounds)):
+        v = x + h['shift'][i % len(h['shift'])]
+        pars.append(min(max(v, lo + 1e-3), hi - 1e-3))
+    data = [float(int(x) + 1 + (i % 3)) for i, x in enumerate(SPEC_DATA(h))] + list(m.config.auxdata)
+    return pars, data
+
+
+def SPEC_DATA(h):
+    spec = SPECS[h['spec']]
+    out = []
+    for ch in sorted(spec['channels'], key=lambda c: c['name']):
+        nb = len(ch['samples'][0]['data'])
+        out += [sum(s['data'][b] for s in ch['samples']) for b in range(nb)]
+    return out
+
+
+def evaluate(h, o, arg=None):
+    """API-level observables of one object: list of (label, tensor)"""
+    import pyhf
+    tl = pyhf.tensorlib
+    if h['kind'] == 'model':
+        pars, data = model_inputs(h, o)
+        if h['batch']:
+            pars = [pars, [p * 1.01 for p in pars]][:h['batch']]
+        out = [('expected_data', o.expected_data(tl.astensor(pars))),
+               ('logpdf', o.logpdf(tl.astensor(pars), tl.astensor(data)))]
+        if not h['batch']:
+            out.append(('expected_actualdata', o.expected_actualdata(tl.astensor(pars))))
+        return out
+    if h['kind'] == 'interp':
+        return [('call', o(tl.astensor(arg)))]
+    if h['kind'] == 'tv':
+        n = sum(len(p) for p in h['parts'])
+        vec = tl.astensor([float(10 + i) for i in range(n)])
+        pieces = [tl.astensor([float(100 * (k + 1) + i) for i in range(len(p))]) for k, p in enumerate(h['parts'])]
+        sp = o.split(vec)
+        return [('stitch', o.stitch(pieces)), ('split0', sp[0]), ('split1', sp[1]), ('split_sel', o.split(vec, selection=['q'])[0])]
+    if h['kind'] == 'pv':
+        n = sum(h['sizes'])
+        if h['batch']:
+            pars = tl.astensor([[float(i + 10 * r) for i in range(n)] for r in range(h['batch'])])
+        else:
+            pars = tl.astensor([float(i) for i in range(n)])
+        r = o.get(pars)
+        return [('get', r)] if r is not None else [('get-none', tl.astensor([0.0]))]
+    raise ValueError(h['kind'])
+
+
+def interp_arg(rng, h):
+    ns = len(h['hists'])
+    k = rng.choice([1, 1, 2, 3])
+    return [[round(rng.uniform(-2.0, 2.0), 3) for _ in range(k)] for _ in range(ns)]
+
+
+def tol(prec):
+    return 1e-9 if prec == '64b' else 2e-3
+
+
+def compare(old, new, prec):
+    """list of discrepancies between the observables of the old object and of the fresh one"""
+    import numpy as np
+    import pyhf
+    tl = pyhf.tensorlib
+    want = type(tl.astensor([0.0]))
+    bad = []
+    for (la, a), (lb, b) in zip(old, new):
+        if not isinstance(a, want):
+            bad.append(dict(kind='type', what=la, got=type(a).__module__ + '.' + type(a).__name__, want=want.__module__ + '.' + want.__name__))
+            continue
+        da, db = str(getattr(a, 'dtype', '')), str(getattr(b, 'dtype', ''))
+        if da != db:
+            bad.append(dict(kind='dtype', what=la, got=da, want=db))
+        xa, xb = np.asarray(tl.tolist(a), dtype=float), np.asarray(tl.tolist(b), dtype=float)
+        if xa.shape != xb.shape:
+            bad.append(dict(kind='shape', what=la, got=list(xa.shape), want=list(xb.shape)))
+        elif not np.allclose(xa, xb, rtol=tol(prec), atol=tol(prec) * 1e-3, equal_nan=True):
+            bad.append(dict(kind='value', what=la, got=xa.tolist(), want=xb.tolist()))
+    return bad
+
+
+# =========================================================================================
+# running one history against pyhf, collecting what the Coq model needs
+class Runner:
+    def __init__(self, tr):
+        self.tr = tr
+        self.handles = {}       # hid -> dict(h=..., obj=..., roots=[root records])
+        self.mops = []          # model ops (Coq text)
+        self.expect = []        # per model op: what was observed (dict)
+        self.ids = {}           # serial -> model id
+        self.next_id = 0
+        self.next_stamp = 0
+        self.cur = ('numpy', '64b', 'scipy')
+        self.problems = []      # API-level discrepancies (concrete)
+        self.mismatch = []      # bookkeeping surprises on the harness side
+        self.stats = dict(switches=0, tl_changes=0, creates=0, deletes=0, evals=0, zombies=0, fits=0, objects=0, callbacks=0)
+
+    # -- model-history bookkeeping --------------------------------------------------------
+    def _account_subs(self, log, owner=None):
+        """turn the subscriptions observed in `log` into Create ops (one per root tree)"""
+        tr = self.tr
+        subs = [(e[1], e[2]) for e in log if e[0] == 'sub' and e[3] == EVENT and e[1] >= 0]
+        if not subs:
+            return []
+        objs = {s: tr.objs[s]() for s, _ in subs}
+        owned = set()
+        trees = {}
+        for s, cls in subs:
+            o = objs[s]
+            if o is None or cls not in tr.table:
+                continue
+            t = obj_tree(tr, o)
+            trees[s] = t
+            for k in t['kids']:
+                owned |= set(tree_serials(k))
+        new_roots = []
+        for s, cls in subs:
+            if s in owned:
+                continue
+            if s not in trees:
+                # subscribed and already gone (or an unknown class): a leaf that lived only inside this operation
+                t = dict(cls=cls, mattr='', active=True, shape=0, kids=[], serial=s)
+                if cls not in tr.table:
+                    self.mismatch.append('subscription by an object of class %s that the fact table does not know' % cls)
+                    continue
+            else:
+                t = trees[s]
+            ser = tree_serials(t)
+            self._assign(t)
+            rec = dict(root=s, stamp=self.next_stamp, serials=ser, tree=t, owner=owner)
+            self.next_stamp += 1
+            self.mops.append('Create ' + coq_tree(t))
+            # observed subscription order restricted to this tree
+            order = [(x, c) for x, c in subs if x in set(ser)]
+            self.expect.append(dict(op='create', subs=order, raw=None, tree=t))
+            tr.roots.append(rec)
+            new_roots.append(rec)
+            self.stats['objects'] += len(ser)
+        return new_roots
+
+    def _account_deaths(self):
+        tr = self.tr
+        for rec in list(tr.roots):
+            if not tr.alive(rec['root']):
+                tr.roots.remove(rec)
+                self.mops.append('Delete %d' % rec['stamp'])
+                self.expect.append(dict(op='delete', raw=None))
+                self.stats['deletes'] += 1
+
+    def _stamp_raw(self):
+        if self.expect:
+            self.expect[-1]['raw'] = self.tr.raw_len()
+
+    def prefix_from_live_roots(self):
+        """objects that survived earlier histories (e.g. models pinned by a jit cache): re-created in the model, in order"""
+        tr = self.tr
+        for rec in list(tr.roots):
+            if not tr.alive(rec['root']):
+                tr.roots.remove(rec)
+        for rec in tr.roots:
+            rec['stamp'] = self.next_stamp
+            self.next_stamp += 1
+            o = tr.objs[rec['root']]()
+            rec['tree'] = obj_tree(tr, o)
+            rec['serials'] = tree_serials(rec['tree'])
+            self._assign(rec['tree'])
+            self.mops.append('Create ' + coq_tree(rec['tree']))
+            self.expect.append(dict(op='create', subs=None, raw=None, tree=rec['tree'], prefix=True))
+            self.stats['zombies'] += 1
+
+    # -- operations -----------------------------------------------------------------------
+    def op_set_backend(self, b, p, o):
+        import pyhf
+        tr = self.tr
+        tr.take()
+        if o == 'current':
+            pyhf.set_backend(b, custom_optimizer=pyhf.optimizer, precision=p)
+            oa = 'OCurrent'
+            oname = self.cur[2]
+        else:
+            pyhf.set_backend(b, custom_optimizer=o, precision=p)
+            oa = '(OByName %s)' % COQ_O[o]
+            oname = o
+        log = tr.take()
+        self.stats['switches'] += 1
+        self.stats['tl_changes'] += (b, p) != self.cur[:2]
+        self.cur = (b, p, oname)
+        self.mops.append('SetBackend %s %s %s' % (COQ_B[b], COQ_P[p], oa))
+        ev = [('T', e[1]) if e[0] == 'trigger' else ('P', e[1]) for e in log if e[0] in ('trigger', 'pre')]
+        self.stats['callbacks'] += sum(1 for e in ev if e[0] == 'P')
+        self.expect.append(dict(op='set_backend', events=ev, raw=tr.raw_len()))
+        self._account_subs(log)      # nothing should subscribe here
+        self._account_deaths()
+        self._stamp_raw()
+        got = (pyhf.tensorlib.name, pyhf.tensorlib.precision, pyhf.optimizer.name)
+        if got != self.cur:
+            self.problems.append(dict(sig='get_backend-wrong', what='after set_backend%r get_backend reports %r' % (self.cur, got)))
+
+    def op_create(self, hid, h):
+        tr = self.tr
+        tr.take()
+        obj = build(h)
+        log = tr.take()
+        roots = self._account_subs(log, owner=hid)
+        self.handles[hid] = dict(h=h, obj=obj, roots=roots)
+        self.stats['creates'] += 1
+        self._stamp_raw()
+
+    def op_delete(self, hid):
+        e = self.handles.pop(hid, None)
+        if e is None:
+            return
+        roots = e['roots']
+        e.clear()
+        del e
+        gc.collect()
+        n0 = len(self.mops)
+        self._account_deaths()
+        if any(self.tr.alive(r['root']) for r in roots):
+            self.stats['zombies'] += 1
+            reg = self.tr.registry()
+            strong = [type(a).__name__ for _, a in (reg._callbacks if reg is not None else [])
+                      if a is not None and not isinstance(a, weakref.ReferenceType)]
+            if strong:
+                self.problems.append(dict(sig='registry-holds-strong-reference',
+                                          what='a deleted object stays alive: the events registry holds %d non-weak references (%s)' % (len(strong), strong[0])))
+        self._stamp_raw()
+
+    def op_eval(self, hid, arg=None, fit=False):
+        """evaluate the handle's object against a freshly built twin under the current backend"""
+        import pyhf
+        tr = self.tr
+        e = self.handles.get(hid)
+        if e is None:
+            return
+        h, obj = e['h'], e['obj']
+        self.stats['evals'] += 1
+        # the model side: interpolator shape caches, then every object of the handle
+        tr.take()
+        try:
+            old = evaluate(h, obj, arg)
+            err_old = None
+        except Exception as ex:   # noqa
+            old, err_old = None, core.exc_enum(ex) + ': ' + str(ex)[:160]
+        self._after_eval(e)
+        twin = build(h)
+        log = tr.take()
+        troots = self._account_subs(log, owner='twin')
+        try:
+            new = evaluate(h, twin, arg)
+            err_new = None
+        except Exception as ex:   # noqa
+            new, err_new = None, core.exc_enum(ex) + ': ' + str(ex)[:160]
+        te = dict(h=h, obj=twin, roots=troots)
+        self._after_eval(te)
+        what = dict(handle=h, arg=arg, backend=list(self.cur))
+        if err_old != err_new and (err_old is None or err_new is None or err_old.split(':')[0] != err_new.split(':')[0]):
+            self.problems.append(dict(sig='exception-after-switch:%s:%s' % (h['kind'], (err_old or 'none').split(':')[0]),
+                                      what='object built earlier raises %r where a fresh one gives %r' % (err_old, err_new), detail=what))
+        elif old is not None and new is not None:
+            for d in compare(old, new, self.cur[1]):
+                self.problems.append(dict(sig='%s-differs:%s:%s' % (d['kind'], h['kind'], d['what']),
+                                          what='%s of an object built earlier: %s %r, fresh object gives %r' % (d['what'], d['kind'], d['got'], d['want']),
+                                          detail=dict(what, diff=d)))
+        # internal diagnostics: cached attributes of old and fresh objects carry the same tensor types
+        diag = attr_diag(tr, e, te)
+        if fit and h['kind'] == 'model' and not h['batch']:
+            self._fit(h, obj, twin)
+        del twin, te, troots
+        self._account_deaths()
+        self._stamp_raw()
+        return diag
+
+    def _after_eval(self, e):
+        """model ops mirroring what the evaluation did: shape caches of interpolators, then observations"""
+        tr = self.tr
+        for rec in e['roots']:
+            for s in rec['serials']:
+                o = tr.objs[s]()
+                if o is not None and hasattr(o, 'alphasets_shape') and s in self.ids:
+                    self.mops.append('CallInterp %d %d' % (self.ids[s], shape_id(o.alphasets_shape)))
+                    self.expect.append(dict(op='callinterp', serial=s, shape=shape_id(o.alphasets_shape), raw=None))
+            for s in rec['serials']:
+                if s in self.ids:
+                    self.mops.append('Eval %d' % self.ids[s])
+                    self.expect.append(dict(op='eval', serial=s, raw=None))
+
+    def _fit(self, h, obj, twin):
+        import numpy as np
+        import pyhf
+        self.stats['fits'] += 1
+        _, data = model_inputs(h, obj)
+        res = []
+        for m in (obj, twin):
+            try:
+                r = pyhf.infer.mle.fit(data, m, return_fitted_val=True)
+                res.append(('ok', np.asarray(pyhf.tensorlib.tolist(r[0]), dtype=float), float(np.asarray(pyhf.tensorlib.tolist(r[1])).ravel()[0]),
+                            type(r[0])))
+            except Exception as ex:   # noqa
+                res.append((core.exc_enum(ex), None, None, None))
+        a, b = res
+        what = dict(handle=h, backend=list(self.cur))
+        t = 1e-6 if self.cur[1] == '64b' else 2e-2
+        if a[0] != b[0]:
+            self.problems.append(dict(sig='fit-differs:outcome', what='fit on the old model: %s, on a fresh one: %s' % (a[0], b[0]), detail=what))
+        elif a[0] == 'ok':
+            if a[3] is not b[3]:
+                self.problems.append(dict(sig='fit-differs:type', what='fit result types differ %s / %s' % (a[3], b[3]), detail=what))
+            if not np.allclose(a[1], b[1], rtol=t, atol=t) or not np.isclose(a[2], b[2], rtol=t, atol=t):
+                self.problems.append(dict(sig='fit-differs:value', what='fit on the old model gives %r (nll %r), on a fresh one %r (nll %r)' % (
+                    a[1].tolist(), a[2], b[1].tolist(), b[2]), detail=what))
+
+    def _assign(self, t):
+        """heap ids as Events.create allocates them (checked afterwards against the EvSub events Coq reports)"""
+        c = self.tr.table.get(t['cls'])
+        if c is None:
+            return
+        if c['members_before']:
+            for k in t['kids']:
+                self._assign(k)
+            self.ids[t['serial']] = self.next_id
+            self.next_id += 1
+        else:
+            self.ids[t['serial']] = self.next_id
+            self.next_id += 1
+            for k in t['kids']:
+                self._assign(k)
+
+
+def attr_diag(tr, e_old, e_new):
+    """per cached attribute read at evaluation: does the old object hold the same kind of tensor as the fresh one"""
+    out = []
+    so = [s for r in e_old['roots'] for s in r['serials']]
+    sn = [s for r in e_new['roots'] for s in r['serials']]
+    if len(so) != len(sn):
+        return [('structure', len(so), len(sn))]
+    for a, b in zip(so, sn):
+        oa, ob = tr.objs[a](), tr.objs[b]()
+        if oa is None or ob is None or type(oa) is not type(ob):
+            out.append(('structure', type(oa).__name__, type(ob).__name__))
+            continue
+        c = tr.table[type(oa).__name__]
+        for at in c['read']:
+            if at in c['cached']:
+                ta, tb = tagof(getattr(oa, at, None)), tagof(getattr(ob, at, None))
+                if ta != tb:
+                    out.append((c['name'], at, ta, tb))
+    return out
+
+
+def tagof(v, depth=0):
+    if isinstance(v, (list, tuple)):
+        return [tagof(x, depth + 1) for x in v][:6]
+    if isinstance(v, dict):
+        return {str(k): tagof(x, depth + 1) for k, x in list(v.items())[:6]}
+    if v is None or isinstance(v, (int, float, bool, str)):
+        return type(v).__name__
+    return type(v).__name__ + ':' + str(getattr(v, 'dtype', '')) + ':' + str(tuple(getattr(v, 'shape', ())))
+
+
+# =========================================================================================
+# histories
+def gen_history(rng, n_ops, backends, fit_prob=0.5):
+    ops, live, nh = [], {}, 0
+    for _ in range(n_ops):
+        r = rng.random()
+        if r < 0.38 or (not live and r < 0.5):
+            ops.append(dict(op='set_backend', b=rng.choice(backends), p=rng.choice(PRECS), o=rng.choice(['scipy', 'minuit', 'scipy', 'current'])))
+            if live and rng.random() < 0.6:
+                hid = rng.choice(sorted(live))
+                ops.append(dict(op='eval', hid=hid, arg=interp_arg(rng, live[hid]) if live[hid]['kind'] == 'interp' else None))
+        elif r < 0.66 or not live:
+            h = gen_handle(rng)
+            live[nh] = h
+            ops.append(dict(op='create', hid=nh, h=h))
+            nh += 1
+        elif r < 0.76:
+            hid = rng.choice(sorted(live))
+            del live[hid]
+            ops.append(dict(op='delete', hid=hid))
+        else:
+            hid = rng.choice(sorted(live))
+            ops.append(dict(op='eval', hid=hid, arg=interp_arg(rng, live[hid]) if live[hid]['kind'] == 'interp' else None))
+    fitted = False
+    for hid in sorted(live):
+        h = live[hid]
+        dofit = (not fitted) and h['kind'] == 'model' and not h['batch'] and rng.random() < fit_prob
+        fitted = fitted or dofit
+        ops.append(dict(op='eval', hid=hid, arg=interp_arg(rng, h) if h['kind'] == 'interp' else None, fit=dofit))
+    return ops
+
+
+def tour_history(rng, settings, kinds):
+    """every kind of object built under the first setting, then carried through all the others and evaluated at each stop"""
+    ops = [dict(op='set_backend', b=settings[0][0], p=settings[0][1], o='scipy')]
+    hs = {}
+    for i, k in enumerate(kinds):
+        hs[i] = k
+        ops.append(dict(op='create', hid=i, h=k))
+    for b, p in settings[1:]:
+        ops.append(dict(op='set_backend', b=b, p=p, o=rng.choice(OPTS)))
+        for i in sorted(hs):
+            ops.append(dict(op='eval', hid=i, arg=interp_arg(rng, hs[i]) if hs[i]['kind'] == 'interp' else None))
+    return ops
+
+
+def reset_process_state(tr, hard=False):
+    """bring pyhf back to numpy/64b/scipy with a flushed registry (two rounds)"""
+    import pyhf
+    gc.collect()
+    try:
+        if hard:
+            raise RuntimeError('hard reset requested')
+        pyhf.set_backend('numpy', precision='32b')
+        pyhf.set_backend('numpy', precision='64b')
+    except Exception:   # noqa  (only after a history in which a callback raised: forget every survivor)
+        vars(tr.events)['__events'].pop(EVENT, None)
+        tr.roots = []
+        pyhf.set_backend('numpy', precision='32b')
+        pyhf.set_backend('numpy', precision='64b')
+    tr.take()
+
+
+def run_history(tr, ops):
+    reset_process_state(tr)
+    R = Runner(tr)
+    R.prefix_from_live_roots()
+    R._stamp_raw()
+    diags = []
+    R.aborted = None
+    for k, o in enumerate(ops):
+        try:
+            if o['op'] == 'set_backend':
+                R.op_set_backend(o['b'], o['p'], o['o'])
+            elif o['op'] == 'create':
+                R.op_create(o['hid'], o['h'])
+            elif o['op'] == 'delete':
+                R.op_delete(o['hid'])
+            elif o['op'] == 'eval':
+                d = R.op_eval(o['hid'], o.get('arg'), fit=o.get('fit', False))
+                if d:
+                    diags.append(dict(op=o, diag=d[:4]))
+        except Exception as ex:   # noqa
+            import traceback
+            tb = traceback.extract_tb(ex.__traceback__)
+            where = [f for f in tb if '/pyhf/' in f.filename]
+            place = (os.path.basename(where[-1].filename) + ':' + where[-1].name) if where else 'harness'
+            if not where:
+                raise
+            R.problems.append(dict(sig='%s-raises:%s:%s' % (o['op'], core.exc_enum(ex), place),
+                                   what='%s (operation %d of the history) raises %s: %s [in %s]' % (o['op'], k, core.exc_enum(ex), str(ex)[:200], place),
+                                   detail=dict(op=o, backend=list(R.cur))))
+            R.aborted = k
+            break
+    for hid in list(R.handles):
+        e = R.handles.pop(hid)
+        e.clear()
+    gc.collect()
+    if R.aborted is not None:
+        reset_process_state(tr, hard=True)
+    else:
+        R._account_deaths()
+        R._stamp_raw()
+    R.diags = diags
+    return R
+
+
+COQ_HEADER = '''From Coq Require Import String List.
+Require Import PV.Run PV.Events PV.gen.FactsC11.
+Import ListNotations. Open Scope string_scope.
+'''
+
+
+def check_against_model(R, rep):
+    """compare what Coq's `report` says for R.mops with what was observed; returns list of disagreement strings"""
+    out = []
+    if len(rep) != len(R.expect):
+        return ['model reports %d steps for %d operations' % (len(rep), len(R.expect))]
+    inv = {v: k for k, v in R.ids.items()}
+    for i, ((evs, raw), ex, mop) in enumerate(zip(rep, R.expect, R.mops)):
+        evs = [e if isinstance(e, tuple) else (e,) for e in evs]
+        if ex.get('raw') is not None and ex['raw'] != raw:
+            out.append('step %d (%s): raw registry length %d, model says %d' % (i, mop[:60], ex['raw'], raw))
+        if ex['op'] == 'set_backend':
+            mod = [('T', e[1]) if e[0] == 'EvTrigger' else ('P', e[1]) for e in evs]
+            obs = [(k, v) if k == 'T' else (k, R.ids.get(v, 'serial%d' % v)) for k, v in ex['events']]
+            if mod != obs:
+                out.append('step %d (%s): triggers/callbacks observed %r, model predicts %r' % (i, mop, obs[:40], mod[:40]))
+        elif ex['op'] == 'create':
+            mod = [(e[1], e[2]) for e in evs if e[0] == 'EvSub']
+            if ex.get('subs') is not None:
+                obs = [(R.ids.get(sr, 'serial%d' % sr), c) for sr, c in ex['subs']]
+                if mod != obs:
+                    out.append('step %d (%s): subscription order observed %r, model predicts %r' % (i, mop[:80], obs, mod))
+        elif ex['op'] == 'eval':
+            if not any(e[0] == 'EvObs' and e[2] == 'true' for e in evs):
+                out.append('step %d (%s): the model does not hold the object to be as fresh: %r' % (i, mop, evs))
+        elif ex['op'] == 'callinterp':
+            if not any(e[0] == 'EvShape' and e[2] == ex['shape'] for e in evs):
+                out.append('step %d (%s): shape cache observed %d, model %r' % (i, mop, ex['shape'], evs))
+    return out
+
+
+def shrink(tr, ops, sig, budget=16):
+    """greedy removal of operations that keeps a problem with the same signature"""
+    cur = list(ops)
+    tries = 0
+    i = len(cur) - 1
+    while i >= 0 and tries < budget:
+        o = cur[i]
+        cand = cur[:i] + cur[i + 1:]
+        if o['op'] == 'create':
+            cand = [x for x in cand if x.get('hid') != o['hid']]
+        tries += 1
+        try:
+            R = run_history(tr, cand)
+            if any(p['sig'] == sig for p in R.problems):
+                cur = cand
+                i = min(i, len(cur)) - 1
+                continue
+        except Exception:   # noqa
+            pass
+        i -= 1
+    return cur
+
+
+def all_kinds(rng):
+    ks = []
+    for spec in sorted(SPECS):
+        h = gen_handle(rng, 'model')
+        h['spec'] = spec
+        ks.append(h)
+    hb = gen_handle(rng, 'model')
+    hb.update(spec='all', batch=2)
+    ks.append(hb)
+    for code in sorted(INTERP_CODES):
+        h = gen_handle(rng, 'interp')
+        h['code'] = code
+        ks.append(h)
+    ks.append(gen_handle(rng, 'tv'))
+    for b in (None, 2):
+        h = gen_handle(rng, 'pv')
+        h.update(batch=b, sel=['c', 'a'])
+        ks.append(h)
+    return ks
+
+
+def search(ctx, tr, tie, backends):
+    """property-directed sweep on the implementation alone: every kind of object x every ordered pair of settings"""
+    rng = ctx.rng
+    settings = [(b, p) for b in backends for p in PRECS]
+    pairs = [(a, b) for a in settings for b in settings if a != b]
+    if ctx.quick:
+        pairs = rng.sample(pairs, min(len(pairs), 10))
+    found = False
+    for a, b in pairs:
+        ops = tour_history(rng, [a, b, a], all_kinds(rng))
+        R = run_history(tr, ops)
+        for pr in R.problems[:3]:
+            report_problem(ctx, tr, ops, pr)
+            found = True
+        if found and ctx.quick:
+            break
+    return found
+
+
+def report_problem(ctx, tr, ops, pr, do_shrink=True):
+    if any(v[0] == pr['sig'] for v in ctx.violations) or any(s_ == pr['sig'] for s_, _ in ctx.known_hits):
+        return
+    do_shrink = do_shrink and len(ctx.violations) < 3
+    small = shrink(tr, ops, pr['sig']) if do_shrink else ops
+    ctx.violation(pr['sig'], pr['what'][:400], dict(kind='history', history=small, original_length=len(ops), detail=pr.get('detail'),
+                                                    impl=pr['what'], expected='identical to a freshly built object under the current backend',
+                                                    theorem='C11_eval_as_fresh / C11_switch_invariant'))
+
+
+def run(ctx):
+    rng = ctx.rng
+    tie = None
+    fx = None
+    try:
+        fx = extract(ctx)
+        ctx.coverage['extracted_facts'] = dict(
+            classes={c['name']: dict(cached=c['cached'], refreshed=c['refreshed'], read_cached=[a for a in c['read'] if a in c['cached']],
+                                     subscribes=c['subscribes'], members=c['members'], members_before=c['members_before'],
+                                     hazards=c['hazards'], shape_attrs=c['shape_attrs']) for c in fx['classes']},
+            manager=fx['manager'], interpolators=fx['interps'])
+    except facts.TieBroken as e:
+        tie = 'fact extraction failed: %s' % e
+    if tie is None:
+        ok, txt = core.prove(ctx)
+        if not ok:
+            tie = 'proof obligations of props/C11.v no longer check: ' + txt[-1500:]
+    ctx.trusted += ['harness/props/c11.py:extract (python ast -> FactsC11.v): a syntactic over-approximation of which attributes hold backend tensors, '
+                    'which are refreshed by _precompute, which are read at evaluation, and of the statement order in __init__/set_backend',
+                    'Python garbage collector and weakref: an object is taken to be collected when a harness-side weak reference to it is dead '
+                    '(modelled as an explicit Delete at that point)',
+                    'the tensor libraries themselves (numpy, jax, torch, tensorflow kernels)']
+    ctx.assumptions += ['histories are finite; objects are built through the public constructors (subscribe=True)',
+                        'backend-neutral private copies (the _x attributes) are not mutated after __init__ (checked syntactically as a hazard)']
+    if fx is None:
+        # the table could not be extracted: fall back to the classes with a _precompute for instrumentation
+        try:
+            fx = extract(ctx, write=False)
+        except facts.TieBroken:
+            fx = None
+    if fx is None:
+        ctx.violation('tie-broken', tie[:300], dict(kind='tie', detail=tie, theorem='props/C11.v'), nofail=True)
+        ctx.coverage.update(evaluations=0, distinct_nontrivial=0, rule='fact extraction failed; nothing could be run')
+        return
+    backends = list(BACKENDS)
+    tr = Tracker.get(fx['classes'])
+    found_concrete = False
+    model_ok = tie is None or 'fact extraction' not in tie
+    runs = []
+
+    # ---- corpus ----
+    hists = []
+    cdir = os.path.join(core.VERIF, 'corpus', 'C11')
+    if os.path.isdir(cdir):
+        for fn in sorted(os.listdir(cdir)):
+            if fn.endswith('.json'):
+                hists.append(('corpus:' + fn, json.load(open(os.path.join(cdir, fn)))['history']))
+    # ---- a systematic tour through all eight settings, then random histories ----
+    settings = [(b, p) for b in backends for p in PRECS]
+    order = list(settings)
+    rng.shuffle(order)
+    hists.append(('tour', tour_history(rng, order if not ctx.quick else order[:5], all_kinds(rng))))
+    nh = ctx.n(40, 300)
+    maxlen = ctx.n(12, 40)
+    for k in range(nh):
+        hists.append(('random%d' % k, gen_history(rng, rng.randrange(4, maxlen + 1), backends, fit_prob=0.5 if ctx.quick else 0.8)))
+
+    stats = dict(switches=0, tl_changes=0, creates=0, deletes=0, evals=0, zombies=0, fits=0, objects=0, callbacks=0)
+    visited, sigs, exprs, diag_all = set(), set(), [], []
+    for name, ops in hists:
+        ctx.log('history %s (%d ops)' % (name, len(ops)))
+        R = run_history(tr, ops)
+        runs.append((name, ops, R))
+        for k in stats:
+            stats[k] += R.stats[k]
+        cur = ('numpy', '64b')
+        for o in ops:
+            if o['op'] == 'set_backend':
+                cur = (o['b'], o['p'])
+                visited.add(cur + (o['o'],))
+            elif o['op'] == 'eval':
+                sigs.add(json.dumps([cur, [x for x in ops[:ops.index(o)] if x['op'] != 'eval'][-6:], o], sort_keys=True, default=str))
+        for pr in R.problems:
+            report_problem(ctx, tr, ops, pr)
+            found_concrete = True
+        if R.mismatch:
+            tie = tie or ('harness could not account for what happened: ' + R.mismatch[0])
+        diag_all += R.diags
+        if R.aborted is not None:
+            R.mops, R.expect = [], []
+        exprs.append('report facts_c11 [%s]' % '; '.join(R.mops))
+    # ---- the same histories inside Coq ----
+    disagreements = []
+    if model_ok:
+        try:
+            res = core.coq_eval(ctx, 'hist', COQ_HEADER, exprs, shard=max(1, (len(exprs) + core.NCPU - 1) // core.NCPU))
+            for (name, ops, R), r in zip(runs, res):
+                rep = core.parse_qc(r)
+                for d in check_against_model(R, rep):
+                    disagreements.append('%s: %s' % (name, d))
+        except core.CoqEvalError as e:
+            tie = tie or ('model evaluation failed: %s' % str(e)[-800:])
+    if disagreements and not found_concrete:
+        tie = tie or ('model and implementation disagree (%d): %s' % (len(disagreements), disagreements[0]))
+    if diag_all and not found_concrete:
+        tie = tie or ('cached attributes of an object built earlier differ in tensor type from a fresh one: %r' % (diag_all[0],))
+
+    # ---- decide ----
+    if tie and not found_concrete:
+        ctx.log('tie broken: %s ... searching' % tie[:200])
+        if not search(ctx, tr, tie, backends):
+            ctx.violation('tie-broken', tie[:300], dict(kind='tie', detail=tie, disagreements=disagreements[:10], diagnostics=diag_all[:5],
+                                                        theorem='props/C11.v'), nofail=True)
+    nmodel_ops = sum(len(R.mops) for _, _, R in runs)
+    ctx.coverage.update(
+        evaluations=stats['evals'], distinct_nontrivial=len(sigs),
+        rule='histories: one tour (every kind of object built under one setting and evaluated under the others) + random histories of '
+             '4..%d operations (set_backend 38%%, create 28%%, delete 10%%, evaluate 24%%, all live objects evaluated at the end, one fit); '
+             'an evaluation = old object vs freshly built twin under the current backend (values, tensor type, dtype); non-trivial = an evaluation '
+             'that follows at least one set_backend; distinct by (current setting, last six preceding non-evaluation operations, evaluated object)' % maxlen,
+        histories=len(hists), model_operations_replayed_in_coq=nmodel_ops, settings_visited=sorted('/'.join(v) for v in visited),
+        n_settings_visited=len(visited), totals=stats, model_disagreements=len(disagreements),
+        backends=backends, precisions=PRECS, optimizers=OPTS + ['<current object>'],
+        samples=[dict(name=runs[-1][0], history=runs[-1][1][:8], model_ops=runs[-1][2].mops[:10])])
+
+
+def replay(body):
+    if body.get('kind') != 'history':
+        print(body.get('detail'))
+        return 0
+    fx = extract(None, write=False)
+    tr = Tracker.get(fx['classes'])
+    R = run_history(tr, body['history'])
+    print(json.dumps(dict(problems=R.problems, stats=R.stats, model_ops=R.mops), indent=1, default=str))
+    return 1 if R.problems else 0
